@@ -273,6 +273,22 @@ def onRequestCompleteEv (cfg : Cfg) (events : Bool) (m : Nat → Bool) (pick : N
     | some e => ⟨s, true, some e⟩
     | none => routeRequest cfg m pick connectOk t req s
 
+/-- what the environment supplies for one client connection -/
+structure ConnIn where
+  m : Nat → Bool
+  pick : Nat → Nat
+  connectOk : Bool
+  req : Parser
+
+/-- successive client connections handled by one process: flags (`cfg`, `events`) and the plugin
+    classes (`t`) are shared, every connection gets a fresh `HttpProtocolHandler` / `ReverseProxy`
+    (state `{}`); nothing else is carried over — `Url.from_bytes` is a pure function of its bytes
+    and a plugin that edits the `Url` it obtained edits its own object. -/
+def runConnections (cfg : Cfg) (events : Bool) (t : Table) : List ConnIn → List Res
+  | [] => []
+  | c :: cs =>
+    onRequestCompleteEv cfg events c.m c.pick c.connectOk t c.req {} :: runConnections cfg events t cs
+
 /-- outcome of `self.upstream.recv(...)` when the upstream descriptor is readable -/
 inductive UpEv
   | seg (raw : Bytes)   -- data
